@@ -100,7 +100,7 @@ def run(ctx):
     rng = ctx.rng
     st = mseg.install(ctx)
     thorough = ctx.tier == "thorough"
-    n = 60 if not thorough else 3000
+    n = 250 if not thorough else 5000
     for t in range(n):
         cfg, extra, tight = gen_config(rng)
         random.seed(rng.getrandbits(32))  # the builder draws from Python's global random
